@@ -38,6 +38,8 @@ SHAPES = [
     ("fail/exit-status-first", "exitn 3 t | tagger 1 in", FORMS),
     ("fail/exit-status-last", "tagger 0 | exitn 3 t", FORMS),
     ("fail/alias-returns-nonzero", "afail 2", FORMS),
+    ("fail/error-raise-decorator", "@error_raise exitn 3 t", FORMS),
+    ("fail/error-raise-decorator-last-stage", "tagger 0 | @error_raise exitn 3 t", FORMS),
     ("notfound/only", "nonexistent_cmd_xyz", FORMS),
     ("notfound/first", "nonexistent_cmd_xyz | tagger 1 in", FORMS),
     ("notfound/later-stage-after-process", "tagger 0 | nonexistent_cmd_xyz", FORMS),
@@ -101,7 +103,7 @@ class C09:
     level = "exploration"
     tables = True
     rule = (
-        "cases = (command shape from a 59-entry table of outcome classes: success, exit status, command not found / not executable at each position, exception and SystemExit inside aliases at each position, "
+        "cases = (command shape from a 61-entry table of outcome classes: success, exit status, command not found / not executable at each position, exception and SystemExit inside aliases at each position, "
         "early-exit consumer under an infinite or large producer, missing redirect target / input at each stage, conflicting redirects, unthreadable alias in a pipeline, background jobs, SIGINT delivered mid-command, "
         "captures nested inside aliases) x capture form {bare, ![], $[], $(), !(), @$()} x repetitions; judged = equality of the resource sample (fds+targets, children+state, threads, cwd, sys.std* identity/closed, "
         "detyped env, unfinished jobs, SIGINT effect, liveness probe) taken after 2 warm-up executions and after N more; distinct_nontrivial = distinct (shape, form, repetitions)"
@@ -114,7 +116,13 @@ class C09:
     ]
 
     def shards(self, tier, seed):
-        return [dict(index=i, timeout=900 if tier == "quick" else 7000) for i in range(16)]
+        out = [dict(index=i, timeout=900 if tier == "quick" else 7000) for i in range(16)]
+        # pty layer: the worker forks a child that is the session leader of a fresh pseudo terminal with
+        # $XONSH_INTERACTIVE on, so terminal hand-over (give_terminal_to / _return_terminal), tty-generated
+        # Ctrl-C / Ctrl-Z and the terminal modes are the real ones
+        npty = 3 if tier == "quick" else 8
+        out += [dict(kind="pty", index=i, npty=npty, timeout=600 if tier == "quick" else 5000) for i in range(npty)]
+        return out
 
     def floors(self, c, tier):
         r = []
@@ -126,9 +134,18 @@ class C09:
             r.append("SIGINT / liveness probes under-exercised")
         if c.get("set:shapes", 0) < len(SHAPES):
             r.append("not every shape exercised")
+        if c.get("pty_terminal_owner_checks", 0) < 150:
+            r.append("pty layer: fewer than 150 terminal-ownership observations")
+        if c.get("pty_terminal_handed_to_job", 0) < 20:
+            r.append("pty layer: the terminal was (almost) never handed to a job, so getting it back was not observed")
+        if c.get("pty_ctrl_c_typed", 0) < 3:
+            r.append("pty layer: no Ctrl-C typed into the terminal")
         return r
 
     # ---- session ---------------------------------------------------------------------------------
+    pty = False
+    master_fd = None
+
     def _setup(self):
         from vlib.session import make_sandbox_path, make_session
         from xonsh.tools import unthreadable
@@ -141,7 +158,7 @@ class C09:
         self.big = os.path.join(scratch, f"c09-big-{os.getpid()}")
         with open(self.big, "wb") as fh:
             fh.write(b"0123456789abcdef\n" * 40000)
-        self.XSH, self.ex, self.ctx = make_session([self.sb], env={"PWD": self.work, "THREAD_SUBPROCS": True, "XONSH_SUBPROC_RAISE_ERROR": False, "RAISE_SUBPROC_ERROR": False})
+        self.XSH, self.ex, self.ctx = make_session([self.sb], env={"PWD": self.work, "THREAD_SUBPROCS": True, "XONSH_SUBPROC_RAISE_ERROR": False, "RAISE_SUBPROC_ERROR": False, "XONSH_INTERACTIVE": bool(self.pty)})
         XSH = self.XSH
 
         def atag(args, stdin=None, stdout=None, stderr=None):
@@ -254,7 +271,21 @@ class C09:
             det = {"<detype failed>": type(e).__name__}
         for k in ("OLDPWD", "PWD", "_", "LAST_RETURN_CODE", "__ALIAS_STACK", "__ALIAS_NAME", "VERIF_ARGV_OUT"):
             det.pop(k, None)
+        term = {}
+        if self.pty:
+            import termios
+
+            try:
+                term["terminal_owner"] = "shell" if os.tcgetpgrp(2) == os.getpgrp() else "another-process-group"
+            except OSError as e:
+                term["terminal_owner"] = "error:" + type(e).__name__
+            try:
+                a = termios.tcgetattr(0)
+                term["termios"] = [a[0], a[1], a[2], a[3], a[4], a[5], [c.hex() if isinstance(c, bytes) else c for c in a[6]]]
+            except termios.error as e:
+                term["termios"] = "error:" + str(e)
         return {
+            **term,
             "nfds": len(fds),
             "fd_targets": sorted(v if not v.startswith(("pipe:", "socket:", "anon_inode:")) else v.split(":")[0] for v in fds.values()),
             "children": sorted((n, "zombie" if s == "Z" else "alive") for n, s in ch.values()),
@@ -309,10 +340,30 @@ class C09:
             return "raised:" + type(e).__name__
 
     # ---- one command -----------------------------------------------------------------------------
-    def run_cmd(self, src, interrupt=False):
+    def take_terminal_back(self):
+        """attribution: after a reported TERMINAL-NOT-RETURNED the harness does what the shell should have done"""
+        old = signal.pthread_sigmask(signal.SIG_BLOCK, [signal.SIGTTOU, signal.SIGTTIN, signal.SIGTSTP])
+        try:
+            os.tcsetpgrp(2, os.getpgrp())
+        except OSError:
+            pass
+        finally:
+            signal.pthread_sigmask(signal.SIG_SETMASK, old)
+
+    def run_cmd(self, src, interrupt=False, rec=None):
         self.ctx.pop("r", None)
         timer = None
-        if interrupt:
+        if interrupt and self.pty:
+            def type_ctrl_c():
+                # the terminal driver turns ^C into SIGINT for the foreground process group - whoever that is right now
+                os.write(self.master_fd, b"\x03")
+                if rec is not None:
+                    rec.count("pty_ctrl_c_typed")
+
+            timer = threading.Timer(0.25, type_ctrl_c)
+            timer.name = "verif-interrupt"
+            timer.start()
+        elif interrupt:
             def ctrl_c():
                 # what a terminal does: every process of the foreground job and the shell get SIGINT
                 for pid in self.children():
@@ -387,9 +438,106 @@ class C09:
                 except OSError:
                     pass
 
+    def run_suspend_case(self, case, rec):
+        """pty only: Ctrl-Z typed while a foreground job owns the terminal.  The job stops, the shell must get the terminal
+        back and keep running; `fg` hands the terminal over again and, when the job has finished, everything is as before."""
+        from xonsh.procs import jobs
+
+        label, cmd, form = case["label"], case["cmd"], case["form"]
+        src = render(cmd, form)
+        rec.case(nontrivial=repr((label, form, "pty")))
+        rec.setadd("shapes_pty_only", label)
+        self.cleanup_between_items()
+        self.baseline_children = set(self.children())
+        pre = self.quiescent_sample(limit=1.0)
+
+        def viol(kind, **kw):
+            rec.violation(f"{kind}/{label}/{form}", case, dict(kw, src=src, pty=True))
+
+        def owner():
+            try:
+                return "shell" if os.tcgetpgrp(2) == os.getpgrp() else "another-process-group"
+            except OSError as e:
+                return "error:" + type(e).__name__
+
+        def type_ctrl_z():
+            os.write(self.master_fd, b"\x1a")
+            rec.count("pty_ctrl_z_typed")
+
+        timer = threading.Timer(0.4, type_ctrl_z)
+        timer.name = "verif-suspend"
+        timer.start()
+        t0 = time.time()
+        out = "ok"
+        try:
+            with harness.alarm(20):
+                self.ex.exec(src + "\n", glbs=self.ctx, locs=None, mode="exec", filename="<c09>")
+        except harness.CaseTimeout:
+            out = "HANG"
+        except BaseException as e:  # noqa
+            out = type(e).__name__
+        timer.join()
+        took = time.time() - t0
+        rec.count("pty_terminal_owner_checks")
+        if out == "HANG":
+            viol("COMMAND-NEVER-RETURNED-AFTER-CTRL-Z")
+            self.take_terminal_back()
+            return
+        stopped = [pid for pid, (n, st) in self.children().items() if pid not in self.baseline_children and st == "T"]
+        if took > 1.7 or not stopped:
+            # the job finished before / without being stopped (e.g. ^Z arrived while the shell still owned the terminal): nothing to judge
+            rec.count("pty_suspend_not_effective")
+            if owner() != "shell":
+                viol("TERMINAL-NOT-RETURNED")
+                self.take_terminal_back()
+            return
+        rec.count("pty_jobs_suspended")
+        if owner() != "shell":
+            viol("TERMINAL-NOT-RETURNED-AFTER-CTRL-Z", outcome=out)
+            self.take_terminal_back()
+        listed = [(n, j.get("status")) for n, j in jobs.get_jobs().items()]
+        if not any(st in ("stopped", "suspended") for _, st in listed):
+            viol("SUSPENDED-JOB-NOT-IN-JOB-TABLE", jobs=listed)
+            return
+        # bring it back: it owns the terminal again, runs to its end, the shell takes the terminal back
+        out2 = "ok"
+        try:
+            with harness.alarm(20):
+                self.ex.exec("fg\n", glbs=self.ctx, locs=None, mode="exec", filename="<c09>")
+        except harness.CaseTimeout:
+            out2 = "HANG"
+        except BaseException as e:  # noqa
+            out2 = type(e).__name__
+        rec.count("pty_terminal_owner_checks")
+        rec.count("pty_fg_resumed")
+        if out2 == "HANG":
+            viol("FG-NEVER-RETURNED")
+            self.take_terminal_back()
+            return
+        if owner() != "shell":
+            viol("TERMINAL-NOT-RETURNED-AFTER-FG", outcome=out2)
+            self.take_terminal_back()
+        s1 = self.quiescent_sample()
+        left = [pid for pid in self.children() if pid not in self.baseline_children]
+        if left:
+            viol("CHILD-LEFT-AFTER-FG", count=len(left), outcome=out2)
+        if s1["nfds"] != pre["nfds"]:
+            viol("FD-LEAK-AFTER-SUSPEND-FG", before=pre["nfds"], after=s1["nfds"])
+        if s1["unfinished_foreground_jobs"] > pre["unfinished_foreground_jobs"] or jobs.get_jobs():
+            jobs._clear_dead_jobs()
+            if jobs.get_jobs():
+                viol("JOB-LEFT-IN-TABLE-AFTER-FG", jobs=[(n, j.get("status")) for n, j in jobs.get_jobs().items()])
+        if s1.get("termios") != pre.get("termios"):
+            viol("TERMINAL-MODES-CHANGED-AFTER-SUSPEND-FG")
+        rec.count("conservation_checks")
+
     def run_case(self, case, rec):
+        if case.get("pty") and not self.pty:
+            return self._pty_cases([case], rec, 300)  # replay of a pty witness
         if not hasattr(self, "XSH"):
             self._setup()
+        if case["label"].startswith("suspend/"):
+            return self.run_suspend_case(case, rec)
         label, cmd, form, reps = case["label"], case["cmd"].replace("BIG", self.big), case["form"], case["reps"]
         src = render(cmd, form)
         interrupt = label.startswith("interrupt/")
@@ -399,19 +547,38 @@ class C09:
         self.baseline_children = set(self.children())
         sys.stdout.flush()
         sys.stderr.flush()
-        os.ftruncate(self.null1, 0)
-        os.ftruncate(self.null2, 0)
-        os.dup2(self.null1, 1)
-        os.dup2(self.null2, 2)
+        if not self.pty:
+            os.ftruncate(self.null1, 0)
+            os.ftruncate(self.null2, 0)
+            os.dup2(self.null1, 1)
+            os.dup2(self.null2, 2)
         outcomes = []
+        not_returned = 0
+        background = label.startswith("background/")
+
+        def one():
+            outcomes.append(self.run_cmd(src, interrupt, rec))
+            if self.pty:
+                # the moment a foreground command has returned the prompt would read the terminal: the shell must own it
+                # again (a background job must never have got it)
+                rec.count("pty_terminal_owner_checks")
+                try:
+                    owner = os.tcgetpgrp(2)
+                except OSError:
+                    owner = -1
+                if owner != os.getpgrp():
+                    nonlocal not_returned
+                    not_returned += 1
+                    self.take_terminal_back()
+
         try:
             pre = self.quiescent_sample(limit=1.0)
             int0 = self.sigint_probe()
             for _ in range(2):
-                outcomes.append(self.run_cmd(src, interrupt))
+                one()
             s0 = self.quiescent_sample()
             for _ in range(reps):
-                outcomes.append(self.run_cmd(src, interrupt))
+                one()
                 if outcomes[-1] == "HANG":
                     break
             s1 = self.quiescent_sample()
@@ -423,12 +590,17 @@ class C09:
                 except ValueError:
                     pass
         finally:
-            os.dup2(self.real1, 1)
-            os.dup2(self.real2, 2)
+            if not self.pty:
+                os.dup2(self.real1, 1)
+                os.dup2(self.real2, 2)
         rec.count("commands_run", len(outcomes))
         rec.count("conservation_checks")
         rec.count("outcome_" + outcomes[-1])
-        info = {"src": src, "reps": reps, "outcomes": sorted(set(outcomes)), "term2_tail": os.pread(self.null2, 400, max(os.fstat(self.null2).st_size - 400, 0)).decode("utf-8", "replace")}
+        info = {"src": src, "reps": reps, "outcomes": sorted(set(outcomes))}
+        if self.pty:
+            info["pty"] = True
+        else:
+            info["term2_tail"] = os.pread(self.null2, 400, max(os.fstat(self.null2).st_size - 400, 0)).decode("utf-8", "replace")
 
         ALIASES = {"atag", "afail", "aexc", "aexit", "ahead", "abig", "asleep", "utag", "uexit", "urin", "anest", "anestfail"}
         nalias = sum(1 for st in cmd.split("|") if st.split()[0] in ALIASES)
@@ -443,7 +615,23 @@ class C09:
             suffix = {"alias": "/" + structural, "capture": "/" + kindof, "both": f"/{structural}/{kindof}", "none": ""}.get(race, "")
             rec.violation(f"{kind}{suffix}" if race else f"{kind}/{label}/{form}", case, d)
 
-        background = label.startswith("background/")
+        if self.pty:
+            if not_returned:
+                viol("TERMINAL-NOT-RETURNED", commands_after_which_another_group_owned_the_terminal=not_returned)
+            if s1.get("terminal_owner") != "shell":
+                viol("TERMINAL-NOT-RETURNED/at-quiescence", race="capture", owner=s1.get("terminal_owner"))
+                self.take_terminal_back()
+            if s1.get("termios") != pre.get("termios"):
+                viol("TERMINAL-MODES-CHANGED", before=pre.get("termios"), after=s1.get("termios"))
+                try:
+                    import termios
+
+                    old = signal.pthread_sigmask(signal.SIG_BLOCK, [signal.SIGTTOU])
+                    a = pre["termios"]
+                    termios.tcsetattr(0, termios.TCSANOW, a[:6] + [[bytes.fromhex(c) if isinstance(c, str) else c for c in a[6]]])
+                    signal.pthread_sigmask(signal.SIG_SETMASK, old)
+                except Exception:  # noqa
+                    pass
         if "HANG" in outcomes:
             viol("COMMAND-NEVER-RETURNED", race="alias")
             return
@@ -486,7 +674,75 @@ class C09:
         else:
             rec.count("liveness_probes_ok")
 
+    # ---- pty layer --------------------------------------------------------------------------------
+    PTY_SKIP = ("nested/", "alias-o2e/", "alias-e2o/", "unthreaded-alias-stdin-file", "redirect-conflict/")
+
+    def run_pty_shard(self, sh, rec):
+        reps = 3 if sh["tier"] == "quick" else 25
+        items = [(label, cmd, form) for label, cmd, forms in SHAPES for form in forms if not label.startswith(self.PTY_SKIP)]
+        items += [("suspend/sleeping-process", "sleep 2", f) for f in ("bare", "![]", "$[]")] + [("suspend/pipeline", "sleep 2 | catrc 0", f) for f in ("bare", "![]")]
+        rng = random.Random(f"{sh['seed']}/C09/pty")
+        rng.shuffle(items)
+        mine = items[sh["index"] :: sh["npty"]]
+        if sh["tier"] == "quick":
+            mine = mine[:34]
+        cases = [{"label": label, "cmd": cmd, "form": form, "reps": reps if not label.startswith(("interrupt/", "suspend/")) else min(reps, 3), "pty": True} for label, cmd, form in mine]
+        self._pty_cases(cases, rec, sh.get("timeout", 600) - 30)
+
+    def _pty_cases(self, cases, rec, timeout):
+        """fork a child that is the session leader of a fresh pty, run the cases there with its own recorder, merge"""
+        from vlib import ptyrun
+
+        side = rec.out_path + ".pty"
+        errfile = side + ".err"
+
+        def child(master_fd):
+            self.pty, self.master_fd = True, master_fd
+            crec = harness.Rec(side, rec.shard)
+            try:
+                self._setup()
+                import xonsh.procs.jobs as xj
+
+                xj.ignore_sigtstp()  # what the interactive shell does at start-up
+                orig_give = xj.give_terminal_to
+
+                def give(pgid):
+                    ok = orig_give(pgid)
+                    if ok and pgid is not None and pgid != os.getpgrp():
+                        crec.count("pty_terminal_handed_to_job")
+                    return ok
+
+                xj.give_terminal_to = give
+                for i, case in enumerate(cases):
+                    if i < 2:
+                        crec.sample({"src": render(case["cmd"], case["form"]), "reps": case["reps"], "pty": True}, "pty")
+                    crec.begin(case)
+                    self.run_case(case, crec)
+            finally:
+                crec.finish()
+
+        status, out = ptyrun.run_in_pty(child, timeout=timeout, errfile=errfile)
+        merged = rec.merge_file(side)
+        if status != "exit:0" or not merged:
+            err = ""
+            try:
+                with open(errfile) as f:
+                    err = f.read()[-600:]
+            except OSError:
+                pass
+            cur = None
+            try:
+                import json
+
+                with open(side + ".cur") as f:
+                    cur = json.load(f)
+            except (OSError, ValueError):
+                pass
+            rec.inconclusive(f"pty session child ended with {status} (current case {cur}); terminal tail {out[-300:]!r}; {err}")
+
     def run_shard(self, sh, rec):
+        if sh.get("kind") == "pty":
+            return self.run_pty_shard(sh, rec)
         self._setup()
         reps = 5 if sh["tier"] == "quick" else 60
         items = [(label, cmd, form) for label, cmd, forms in SHAPES for form in forms]
